@@ -113,6 +113,8 @@ func (c *canCase) cancelOp() string {
 	return op
 }
 
+const canListenURI = "file:///listen/"
+
 const (
 	canBlockerTag = 1000  // + i : the notification that holds the peer's dispatcher in front of call i
 	canFollow1    = 100   // tags of the follow-up calls: 100 c2s before the release, 101 nested before the release, 102 c2s at the end
@@ -274,6 +276,16 @@ func (h *canH) end(i int, err error) {
 		if c.innerCancel != nil {
 			c.innerCancel(errCanCause)
 		}
+		if i >= 0 && i < len(h.c.calls) && h.c.calls[i].meth == "listen" && len(h.css) > h.c.calls[i].s && h.css[h.c.calls[i].s] != nil {
+			// the context of a subscriptions/listen call belongs to the session: Unsubscribe ends it (a detached
+			// goroutine then runs cancelCall); the caller's side of the cancellation is Unsubscribe returning
+			uerr := h.css[h.c.calls[i].s].Unsubscribe(context.Background(), &UnsubscribeParams{URI: canListenURI + strconv.Itoa(i)})
+			if uerr == nil {
+				h.log("ret", i, "ctx:c")
+			} else {
+				h.log("ret", i, "err")
+			}
+		}
 	})
 }
 
@@ -291,6 +303,14 @@ func canTagOf(m map[string]any) (int, bool) {
 func (h *canH) sendMW(next MethodHandler) MethodHandler {
 	return func(ctx context.Context, method string, req Request) (Result, error) {
 		tag, ok := ctx.Value(canTagKey{}).(int)
+		if lp, isListen := req.GetParams().(*SubscriptionsListenParams); method == methodSubscriptionsListen && isListen && lp != nil &&
+			lp.Notifications != nil && len(lp.Notifications.ResourceSubscriptions) == 1 {
+			// ClientSession.Subscribe (2026-07-28) opens the listen stream on a context of its own: the call is
+			// identified by the URI it subscribes to
+			if n, err := strconv.Atoi(strings.TrimPrefix(lp.Notifications.ResourceSubscriptions[0], canListenURI)); err == nil {
+				tag, ok = n, true
+			}
+		}
 		if !ok {
 			tag = canIgnore
 			// a server→client call made by serverMultiRoundTripMiddleware (mcp/mrtr.go) to fulfil an input request of
@@ -320,6 +340,11 @@ func (h *canH) sendMW(next MethodHandler) MethodHandler {
 		res, err := next(ctx, method, req)
 		if err != nil && os.Getenv("VERIF_CAN_DEBUG") != "" {
 			fmt.Fprintf(os.Stderr, "DEBUG tag=%d method=%s err=%v\n", tag, method, err)
+		}
+		if method == methodSubscriptionsListen && err == nil {
+			// callSubscriptionsListen does not await the call: Subscribe returning is not the return of the call; the
+			// caller "returns" when it abandons the stream (Unsubscribe, see canH.end)
+			return res, err
 		}
 		h.log("ret", tag, canClassify(res, err))
 		return res, err
@@ -444,6 +469,9 @@ func (h *canH) recvMW(next MethodHandler) MethodHandler {
 			err = ctx.Err()
 		} else {
 			res, err = next(ctx, method, req)
+			if k.mode == "listen" && ctx.Err() != nil {
+				hcOnce() // the real subscriptions/listen handler returned because its context ended
+			}
 			if _, empty := res.(*emptyResult); err == nil && res != nil && !empty {
 				res.SetMeta(map[string]any{"vtag": tag})
 			}
@@ -471,6 +499,8 @@ func (h *canH) issue(ctx context.Context, tag int, dir, meth string, cs *ClientS
 			_, err = cs.CallTool(ctx, &CallToolParams{Name: "mrtr", Arguments: map[string]any{}})
 		case "ping":
 			err = cs.Ping(ctx, &PingParams{})
+		case "listen":
+			err = cs.Subscribe(ctx, &SubscribeParams{URI: canListenURI + strconv.Itoa(tag)})
 		default:
 			err = fmt.Errorf("bad method %q", meth)
 		}
@@ -903,6 +933,9 @@ func canRunCase(t *testing.T, out *verifOut, id string, c *canCase) {
 		mkServer := func() *Server {
 		server := NewServer(&Implementation{Name: "s", Version: "1"}, &ServerOptions{
 			ProgressNotificationHandler: func(context.Context, *ProgressNotificationServerRequest) {},
+			SubscribeHandler:            func(context.Context, *SubscribeRequest) error { return nil },
+			UnsubscribeHandler:          func(context.Context, *UnsubscribeRequest) error { return nil },
+			HasResources:                true,
 		})
 		server.AddReceivingMiddleware(h.recvMW)
 		server.AddSendingMiddleware(h.sendMW)
@@ -1280,6 +1313,25 @@ func canGen0(rng *rand.Rand, tr string) *canCase {
 		}
 	}
 	at := func() int { return rng.Intn(4) }
+	pipeTr := tr == "mem" || tr == "io"
+	if (isNew && rng.Intn(4) == 0) || (pipeTr && rng.Intn(12) == 0) {
+		// subscriptions/listen (2026-07-28): ClientSession.Subscribe opens a listen stream whose call is NOT awaited
+		// (callSubscriptionsListen); Unsubscribe ends its context and a detached goroutine runs cancelCall.  The
+		// server's handler (the real one) blocks until its context ends.  The listen call is the victim; 0-2 other
+		// tool calls are in flight.  On the pipes the session then speaks 2026-07-28 too.
+		c.pv = protocolVersion20260728
+		c.calls = append(c.calls, canCall{dir: "c2s", meth: "listen", mode: "listen", at: at()})
+		for k := rng.Intn(3); k > 0; k-- {
+			m, d := mode()
+			c.calls = append(c.calls, canCall{dir: "c2s", meth: "tool", mode: m, d: d, at: at()})
+		}
+		c.victim, c.when = 0, "run"
+		c.tc = c.calls[0].at + 10 + rng.Intn(20)
+		if pipeTr && rng.Intn(3) == 0 {
+			c.fault = []string{"stall", "reject", "late"}[rng.Intn(3)]
+		}
+		return c
+	}
 	if rng.Intn(9) == 0 {
 		// A GROUP of calls sharing one context (errgroup, request scope, common deadline) that ends at once: 2-7 or
 		// 17-32 members (more than any small constant of the code), client→server or nested server→client inside one
